@@ -309,6 +309,16 @@ def family_state():
     body = [I.for_(I.name("i"), k(), [I.aug(I.name("m"), I.read("i"))]), I.ret(I.site(k()))]
     p = I.program("st8002", ["x", "m"], body, pid=8002)
     progs.append(dict(p, defaults={"m": {"e": "acc", "k": 6}}, precall=True, form="mutable_default_loop", ctx="for", family="FS"))
+    # a default value taken from a local of the scope the def was executed in, and one whose evaluation is observable: the
+    # defaults are evaluated when the def runs, never again
+    k = K()
+    body = [I.assign(I.name("a"), I.add(I.read("m"), I.site(k()))), I.ret(I.read("a"))]
+    p = I.program("st8003", ["x", "m"], body, closure=["cv"], pid=8003)
+    progs.append(dict(p, defaults={"m": I.read("cv")}, form="default_from_enclosing_scope", ctx="top", family="FS"))
+    k = K()
+    body = [I.assign(I.name("a"), I.site(k())), I.ret(I.read("a"))]
+    p = I.program("st8004", ["x", "m"], body, pid=8004)
+    progs.append(dict(p, defaults={"m": I.call(k())}, form="default_with_side_effect", ctx="top", family="FS"))
     return progs
 
 
